@@ -1,6 +1,8 @@
 import Amgcl.Driver.Util
 import Amgcl.Model.RigidBodyModes
 import Amgcl.Model.CoarseningChecks
+import Amgcl.Model.PointwiseAggregates
+import Amgcl.Model.ParamGlue
 /-!
 Line protocol of the rigid-body-mode model (harness/h_rbm.cpp).  `rigid_body_modes` computes in `double` whatever
 the coordinate type, so the op lines carry the implementation's output (exact rational values of the doubles) and the
@@ -9,17 +11,20 @@ up to `tol`:
 ```
 rbm_modes      ndim transpose tol coo[] B0[] B[]          -> precondition | nmodes close
 rbm_degenerate ndim transpose coo[] B0[]                  -> precondition | nonfinite | finite
-rbm_ptent      ndim tol naggr id[] coo[] B[] P Bc[]       -> close shape repro ortho
+rbm_ptent      ndim tol eps A coo[] B[] P Bc[]            -> empty_level | count id[] close shape repro ortho
 rbm_nsparams   cols B[]                                   -> precondition | cols B[]
 ```
 `rbm_nsparams`: the property-tree constructor of `nullspace_params` copies `rows * cols` values from the pointer `B`.
 `B0` is what the caller's vector holds on entry (`B.resize` keeps it).  `rbm_degenerate`: `nonfinite` iff some
-divisor `s` of the normalisation is zero while the column has rows (`0/0` in `double`).  `rbm_ptent`: `B` close to the
+divisor `s` of the normalisation is zero while the column has rows (`0/0` in `double`).  `rbm_ptent`: the aggregates of the model
+`pointwiseAggregates` (`block_size = ndim`, `min_aggregate = nmodes`), `B` close to the
 model's rigid body modes of `coo` (row-major), and the V-grade predicates of `Model/CoarseningChecks.lean` on the
 implementation's `P_tent` / `B_coarse` with `block_size = ndim`, `cols = nmodes`.
 -/
 namespace Amgcl.Driver.RigidBodyModes
-open Amgcl Amgcl.Driver
+open Amgcl Amgcl.Driver Amgcl.ParamGlue Amgcl.Coarsening
+
+def qabs (x : Rat) : Rat := if x < 0 then -x else x
 
 /-- a rational square root good to `2^-60` (absolute) -/
 def psqrt (q : Rat) : Rat :=
@@ -51,18 +56,26 @@ def handle (op : String) (args : List String) : Option String :=
         | .ok (_, _, ss) => if coo.size > 0 && ss.any (· == 0) then "nonfinite" else "finite"
         | _ => "precondition"
   | "rbm_ptent" => withArgs (do
-        let ndim ← pNat; let tol ← pRat; let na ← pNat; let id ← pIntVec; let coo ← pVec; let B ← pVec
+        let ndim ← pNat; let tol ← pRat; let eps ← pRat; let A ← pCRS; let coo ← pVec; let B ← pVec
         let P ← pCRS; let Bc ← pVec; pEnd
-        pure (ndim, tol, na, id, coo, B, P, Bc)) args
-      fun (ndim, tol, na, id, coo, B, P, Bc) =>
-        match RBM.rigidBodyModes psqrt ndim coo #[] false with
-        | .ok (cols, Bm) =>
-          if id.size == coo.size && B.size == id.size * cols && P.wfb && P.ncols == (na / ndim) * cols
-              && Bc.size == (na / ndim) * cols * cols && id.all (fun v => v < (na : Int)) then
-            joinSp [showBool (closeTo tol Bm B), showBool (Coarsening.ptentShape ndim cols id P),
-                    showBool (Coarsening.reproducesB tol cols id P Bc B), showBool (Coarsening.orthonormalCols tol P)]
+        pure (ndim, tol, eps, A, coo, B, P, Bc)) args
+      fun (ndim, tol, eps, A, coo, B, P, Bc) =>
+        match RBM.rigidBodyModes psqrt ndim coo #[] false, f32Square eps with
+        | .ok (cols, Bm), some e2 =>
+          if A.wfb && A.nrows == A.ncols && A.nrows == coo.size then
+            match pointwiseAggregates qabs e2 ndim cols A with
+            | .ok ag =>
+              let na := ag.count; let id := ag.id
+              if B.size == id.size * cols && P.wfb && P.ncols == (na / ndim) * cols
+                  && Bc.size == (na / ndim) * cols * cols then
+                joinSp [toString na, showIntVec id,
+                        showBool (closeTo tol Bm B), showBool (Coarsening.ptentShape ndim cols id P),
+                        showBool (Coarsening.reproducesB tol cols id P Bc B), showBool (Coarsening.orthonormalCols tol P)]
+              else badInput
+            | .emptyLevel => "empty_level"
+            | .precondition => badInput
           else badInput
-        | _ => badInput
+        | _, _ => badInput
   | "rbm_nsparams" => withArgs (do
         let cols ← pNat; let B ← pVec; pEnd
         pure (cols, B)) args
